@@ -163,6 +163,12 @@ func runC18(c *Ctx) {
 	}
 	nb := strBodies(bl, func(body []byte) { c18Lite(c, quoted(body)) })
 	c.Rep.Exhaustive = append(c.Rep.Exhaustive, fmt.Sprintf("all %d string literals whose body is a sequence of length <= %d over \\ u 0 a F g \" n", nb, bl))
+	tl := 5
+	if c.Thorough() {
+		tl = 6
+	}
+	nt := tokenSeqs(tl, func(doc []byte) { c18Lite(c, append([]byte(nil), doc...)) })
+	c.Rep.Exhaustive = append(c.Rep.Exhaustive, fmt.Sprintf("all %d sequences of up to %d tokens over { } [ ] , : 1 \"a\" null true SP", nt, tl))
 	ndocs := 150
 	if c.Thorough() {
 		ndocs = 2500
